@@ -418,10 +418,67 @@ pub fn run(ctx: &Ctx) -> Report {
     });
     st = st.merge(st_h);
 
+    // (3) the crate's own provider adapter (service_for_signing_key_fn): one invocation per validation that
+    //     reaches the key lookup, none otherwise, over a history on one adapter instance
+    {
+        use std::sync::atomic::{AtomicUsize, Ordering};
+        use std::sync::Arc;
+        let calls = Arc::new(AtomicUsize::new(0));
+        let c2 = calls.clone();
+        // (bound to a name first: passed directly, the FnOnce bound of the adapter would fix the closure's kind)
+        let lookup = move |r: scratchstack_aws_signature::GetSigningKeyRequest| {
+            let c3 = c2.clone();
+            async move {
+                c3.fetch_add(1, Ordering::SeqCst);
+                let c = refmodel::hmac::chain(e2e::SECRET.as_bytes(), &r.request_date().format("%Y%m%d").to_string(), r.region().as_bytes(), r.service().as_bytes());
+                Ok::<_, tower::BoxError>(GetSigningKeyResponse::builder().signing_key(env::ksigning_from_bytes(c.ksigning)).build().unwrap())
+            }
+        };
+        let mut svc = scratchstack_aws_signature::service_for_signing_key_fn(lookup);
+        let z = Dims { query_carrier: false, path: 0, query: 0, carrier: 0, alg: 0, syntax: 0, missing: 0, reqs: 0, date: 0, cred: 0, provider: 0, sig: 0 };
+        let seq: Vec<(&str, Dims, usize, bool)> = vec![
+            ("valid", z, 1, true),
+            ("expired", Dims { date: 2, ..z }, 0, false),
+            ("valid-query", Dims { query_carrier: true, ..z }, 1, true),
+            ("wrong-signature", Dims { sig: 1, ..z }, 1, false),
+            ("scope", Dims { cred: 3, ..z }, 0, false),
+            ("valid", z, 1, true),
+        ];
+        for round in 0..3 {
+            for (name, d, expect_calls, expect_ok) in &seq {
+                let case = c13::materialize(d).unwrap();
+                let before = calls.load(Ordering::SeqCst);
+                let req = case.wire.to_http().unwrap();
+                let reqs = sut::build_vec_reqs(&case.cfg.reqs, sut::ReqBuild::VecNew);
+                let (out, _) = env::run_bounded(
+                    scratchstack_aws_signature::sigv4_validate_request(req, &case.cfg.region, &case.cfg.service, &mut svc, sut::to_chrono(case.cfg.now()), &reqs, case.cfg.options()),
+                    16,
+                );
+                let n = calls.load(Ordering::SeqCst) - before;
+                st.evaluations += 1;
+                st.validated += 1;
+                st.transitions += 1 + n as u64;
+                st.nontrivial(&("adapter", name, round));
+                let ok = matches!(&out, Some(Ok(_)));
+                st.outcome(&format!("adapter:{}", if ok { "Ok" } else { "refused" }));
+                if n != *expect_calls || ok != *expect_ok || out.is_none() {
+                    st.violation(Violation {
+                        index: total + nh + round * 10,
+                        what: format!("provider-adapter:{}", name),
+                        case: json!({"class": name, "round": round}),
+                        expected: format!("{} provider call(s), accepted = {}", expect_calls, expect_ok),
+                        observed: format!("{} call(s), accepted = {}, completed = {}", n, ok, out.is_some()),
+                        known: None,
+                    });
+                }
+            }
+        }
+    }
+
     Report {
         stats: st,
         rule: format!(
-            "(1) {} request classes (one per stage of the documented order on each carrier, plus valid and wrong signature) x {} provider behaviours: poll_ready answers Pending k times (k <= {p}) then Ready or one of 16 errors (13 SignatureError shapes, io::Error, String, private type); the call's future is Pending j times (j <= {p}) then the correct key, a wrong key or one of the 16 errors. Invariants on every execution: call only after Ready, at most once; requests failing an earlier rule never touch the provider and their error does not depend on it; a SignatureError from the provider comes back with the same kind, code, status and message, any other error as InternalServiceError/500; no provider error or wrong key ends in Ok; the validation future is polled at least 1+k+j times (a Pending is never taken as an answer). (2) every sequence of 1..{} validations over {} (request, behaviour) symbols on ONE provider instance (key rotation correct->wrong->correct, errors, delays): each step's outcome and provider-call count equal what the model says for that step alone (incl. a valid request presented to a validation configured for another service right after it was accepted for its own). states = distinct (class, outcome, provider log length) and distinct history outcome vectors",
+            "(1) {} request classes (one per stage of the documented order on each carrier, plus valid and wrong signature) x {} provider behaviours: poll_ready answers Pending k times (k <= {p}) then Ready or one of 16 errors (13 SignatureError shapes, io::Error, String, private type); the call's future is Pending j times (j <= {p}) then the correct key, a wrong key or one of the 16 errors. Invariants on every execution: call only after Ready, at most once; requests failing an earlier rule never touch the provider and their error does not depend on it; a SignatureError from the provider comes back with the same kind, code, status and message, any other error as InternalServiceError/500; no provider error or wrong key ends in Ok; the validation future is polled at least 1+k+j times (a Pending is never taken as an answer). (2) every sequence of 1..{} validations over {} (request, behaviour) symbols on ONE provider instance (key rotation correct->wrong->correct, errors, delays): each step's outcome and provider-call count equal what the model says for that step alone (incl. a valid request presented to a validation configured for another service right after it was accepted for its own). (3) a history of 18 validations through the crate's own adapter service_for_signing_key_fn with an invocation counter. states = distinct (class, outcome, provider log length) and distinct history outcome vectors",
             classes.len(), nb, depth, k, p = max_pending
         ),
         bounds: json!({"max_pending": max_pending, "history_depth": depth, "history_alphabet": k, "executions": total, "histories": nh}),
